@@ -7,6 +7,11 @@ ROOT = os.path.dirname(HERE)
 
 # property -> (level category, technique, level text, level note, design ref)
 CHECKS = {
+    "C20": ("exploration",
+            "Go race detector over concurrent workloads (reports with a gmsm frame are violations), equality of each concurrent result with its sequential counterpart, porcupine linearizability checks of recorded histories, stream-consistency monitor for concurrent Read/Write/Close",
+            "The worker is built with -race and runs: package-level operations on separate data from 2..32 goroutines (sign/verify/encrypt/decrypt/key exchange, SM3, SM4 helpers, GCM, parse + chain verification on shared pools, PKCS#7) compared with sequential results; one shared cipher.Block under mixed Encrypt/Decrypt vs the reference; first use of the curve from 16 goroutines in fresh child processes; one Config serving up to 48 simultaneous handshakes with concurrent ticket-key rotation, shared session cache and pools; porcupine on the LRU session cache and the ticket-key register (many short histories, unique values, 10 s checker timeout = inconclusive); one connection with concurrent tagged writers, a reader and Close at a seeded instant (per-writer FIFO, no duplication, no loss before close, all calls return, Write after Close errors).",
+            "Trusted: Go race detector, porcupine v1.3.0, sequential results and /verif/ref as oracles. A clean run speaks only for the interleavings produced (evidence lists goroutine counts and histories).",
+            "DESIGN.md §5 C20"),
     "C08": ("fault_enumeration",
             "attacker catalogue executed against live endpoints: misconfigured genuine stacks, a scripted reference peer without the identity, and a record-level man in the middle rewriting the cleartext flight; completion/panic monitors",
             "(1) gmtls servers/clients holding genuine certificates with wrong keys, untrusted/expired/not-yet-valid/wrong-name/swapped/RSA/P-256 certificates, client certificates with wrong key/untrusted/expired under each ClientAuth policy; (2) a well-formed reference peer whose ServerKeyExchange is over other randoms / another encryption certificate / by another key / replayed, whose CertificateVerify is by another key / over another transcript / omitted / replayed, wrong Finished, pre-master under another key; (3) a man in the middle flipping every byte (sampled for long messages in quick) of every cleartext handshake message and applying structured rewrites (suite downgrade, randoms, session id, certificate swap/drop/append, drop/duplicate message). The attacked side must return an error; after a real byte change never both sides complete; no panic on the attacked side. Both GM suites, client-auth policies, plus TLS 1.2.",
